@@ -70,12 +70,36 @@ def flags(st):
     return st.ghost.setdefault('flags', {})      # loc -> ('zero'|'entry', version, partner)
 
 
+def gram_tag(st, loc):
+    """is the array at `loc` (current version) of the form  M @ a - b  or  -b  (a Gram-form gradient G a - X^T y / n)?"""
+    ver = st.heap.get(loc)
+    evs = {e['loc']: e for e in st.events if e['kind'] == 'pure' and 'op' in e}
+    e = evs.get(loc)
+    if e is None or ver is None:
+        return None
+    if e['op'] == 'USub' and e['operands'][0] is not None:
+        return dict(kind='affine0', b=e['operands'][0])
+    if e['op'] == 'Sub' and e['operands'][0] is not None and e['operands'][1] is not None:
+        inner = evs.get(e['operands'][0][0])
+        if inner is not None and inner['op'] == 'MatMult' and inner['operands'][1] is not None:
+            return dict(kind='affine', a=inner['operands'][1], M=inner['operands'][0], b=e['operands'][1])
+    return None
+
+
 def get_pair(st, wloc, xloc):
     p = pairs(st)
     key = (wloc, xloc)
     if key not in p:
         fw, fx = flags(st).get(wloc), flags(st).get(xloc)
         ok = False
+        gt = gram_tag(st, xloc)
+        created = {e['loc'] for e in st.events if e['kind'] == 'write'}
+        if gt is not None and xloc not in created:
+            # grad = -b pairs with an all-zero w ; grad = M @ a - b pairs with w when a is w (same array, same version)
+            if gt['kind'] == 'affine0' and fw and fw[0] == 'zero' and fw[1].eq(st.heap[wloc]):
+                ok = True
+            if gt['kind'] == 'affine' and gt['a'][0] == wloc and gt['a'][1].eq(st.heap[wloc]):
+                ok = True
         if fw and fx and fw[1].eq(st.heap[wloc]) and fx[1].eq(st.heap[xloc]):
             if fw[0] == 'zero' and fx[0] == 'zero':
                 ok = True
@@ -440,6 +464,10 @@ def c_raw_hessian(ip, st, args, kw, node):
 def score_contract(ip, st, w, grad, ws, strat, aux, node):
     o = newarr(st, 'opt', st.vlen(ws) if isinstance(ws, SArr) else None)
     p = prov(st).get(grad.loc) if isinstance(grad, SArr) else None
+    if p is None and isinstance(grad, SArr) and (gram_tag(st, grad.loc) is not None or grad.loc in st.ghost.get('gramgrad', set())):
+        # Gram solver: the gradient array itself is the state the score is computed from
+        st.ghost.setdefault('gramgrad', set()).add(grad.loc)
+        p = dict(kind='grad', xv=st.ver(grad), xloc=grad.loc, ws=None, wsv=None, ver=st.ver(grad), name='gram')
     ok = bool(p and p['kind'] == 'grad' and p['ver'].eq(st.ver(grad)))
     same_ws = ok and ((p['wsv'] is not None and p['wsv'].eq(st.ver(ws))) or
                       (p['wsv'] is None and ws.loc in st.ghost.get('arange', {})))
@@ -575,6 +603,31 @@ def c_format(ip, st, args, kw, node):
     return SStr(fresh(I, 'fmt'))
 
 
+def c_gram_epoch(ip, st, args, kw, node):       # _gram_cd_epoch(scaled_gram, w, grad, penalty, greedy_cd) -> scores
+    G, w, grad = args[0], args[1], args[2]
+    st.ghost.setdefault('gramgrad', set()).add(grad.loc)
+    get_pair(st, w.loc, grad.loc)
+    for a in (w, grad):
+        st.bump(a.loc, '_gram_cd_epoch', node, kernel='_gram_cd_epoch', kernel_pair=(w.loc, grad.loc))
+        on_write(ip, st, st.events[-1])
+    st.events.append(dict(kind='kernel', name='_gram_cd_epoch', wloc=w.loc, xloc=grad.loc, line=node.lineno, wview=(w.lo, w.hi)))
+    n = st.vlen(w)
+    allf = newarr(st, 'arange', n, 'i')
+    av = st.ver(allf)
+    st.qfacts.append(lambda k, av=av: seli(av, k) == k)
+    st.ghost.setdefault('arange', {})[allf.loc] = av
+    o = newarr(st, 'opt', n)
+    ov, wv, gv = st.ver(o), st.ver(w), st.ver(grad)
+    st.qfacts.append(lambda k, ov=ov, wv=wv, gv=gv: selr(ov, k) == SCORE(wv, z3.IntVal(0), gv, k, SUBDIFF, NOAUX))
+    st.events.append(dict(kind='score', out=o.loc, wloc=w.loc, wv=wv, lo=z3.IntVal(0), wlen=n, strat=SUBDIFF, ws=allf.loc, wsv=av,
+                          line=node.lineno, grad_ok=True, xv=gv, xloc=grad.loc, aux=NOAUX))
+    return o
+
+
+def c_fresh_real(ip, st, args, kw, node):
+    return SReal(fresh(R, 'real'))
+
+
 def c_anderson_new(ip, st, args, kw, node):
     o = SObj(f'accelerator#{fresh(I, "acc")}')
     st.ghost.setdefault('acc', {})[o.name] = dict(ok=z3.BoolVal(True))
@@ -645,6 +698,9 @@ BASE_CALLS = {
     'modifies:_backtrack_line_search': [2, 3], 'modifies:_backtrack_line_search_s': [4, 5],
     'X.multiply': c_pure_obj, 'modifies:X.multiply': [], 'X.toarray': c_pure_obj,
     '*.format': c_format, 'modifies:*.format': [], '_slice_array': c_slice_array, 'modifies:_slice_array': [],
+    '_gram_cd_epoch': c_gram_epoch, 'modifies:_gram_cd_epoch': [1, 2], 'np.linalg.norm': c_fresh_real, 'modifies:np.linalg.norm': [],
+    '*.dot': c_pure_obj, 'modifies:*.dot': [], '*.toarray': c_pure_obj, 'modifies:*.toarray': [],
+    'UserWarning': c_opaque,
     'AndersonAcceleration': c_anderson_new, 'accelerator.extrapolate': c_extrapolate,
     'attr:X.shape': attr_shape,
     'modifies:_cd_epoch': [2, 3], 'modifies:_cd_epoch_sparse': [4, 5],
